@@ -60,15 +60,14 @@ func plan(thorough bool) tierPlan {
 	if !thorough {
 		return tierPlan{
 			exhaustive: []exhaustiveRun{
-				{"x_w2_fork.cfg", 3, 6 * time.Minute},
-				{"x_w3_linear.cfg", 2, 6 * time.Minute},
+				{"x_w2_fork.cfg", 3, 8 * time.Minute},
 			},
 			graphs: []graphRun{
-				{"g_w2_small.cfg", 3, 1200, 40, 6 * time.Minute},
+				{"g_w2_small.cfg", 3, 1200, 40, 8 * time.Minute},
 			},
 			sims: []simRun{
-				{"s_w3.cfg", 2, 25, 55, 6 * time.Minute},
-				{"s_w4.cfg", 2, 20, 65, 6 * time.Minute},
+				{"s_w3.cfg", 2, 18, 55, 8 * time.Minute},
+				{"s_w4.cfg", 2, 15, 65, 8 * time.Minute},
 			},
 			budget: 10,
 		}
@@ -85,7 +84,8 @@ func plan(thorough bool) tierPlan {
 		},
 		graphs: []graphRun{
 			{"g_w2_small.cfg", 3, 0, 40, 40 * time.Minute},
-			{"g_w3_small.cfg", 4, 4000, 50, 40 * time.Minute},
+			{"g_w2_fork.cfg", 3, 6000, 40, 40 * time.Minute},
+			{"g_w3_small.cfg", 3, 5000, 50, 40 * time.Minute},
 		},
 		sims: []simRun{
 			{"s_w3.cfg", 3, 170, 55, 40 * time.Minute},
